@@ -85,11 +85,13 @@ fn main() {
         "c03_env_files" => c03::env_files(thorough),
         "c10_layer_paths" => c03::layer_paths(thorough),
         "c11_delete" => c11::delete(thorough),
+        "c11_nonroot" => c11::nonroot(thorough),
         "c12_faults" => c12::faults(thorough),
         "c01_layers" => c01::layers(thorough),
         "c02_layers" => c02::layers(thorough),
         "c13_order" => c13::order(thorough),
         "c13_workspace" => c13::workspace(thorough),
+        "c13_command" => c13::command(thorough),
         "c14_normalize" => c14::normalize(thorough),
         "c14_package" => c14::package(thorough),
         "c15_package" => c15::package(thorough),
